@@ -71,7 +71,7 @@ func Load(cfg LoadConfig) (*Program, error) {
 	// init order: dependency order over all packages, restricted to the repo
 	// module + a fixed list of leaf std packages whose tables are needed.
 	want := map[string]bool{"unicode/utf8": true, "unicode/utf16": true, "math/bits": true, "strconv": true,
-		"errors": true, "io": true, "bytes": true, "encoding/base64": true, "math": true, "unicode": false, "sync": false}
+		"errors": true, "io": true, "bytes": true, "encoding/base64": true, "math": true, "unicode": true, "strings": true, "sync": false}
 	for _, e := range cfg.ExtraInit {
 		want[e] = true
 	}
